@@ -24,10 +24,12 @@ from typing import Any
 VERIF = os.path.dirname(os.path.dirname(os.path.abspath(__file__)))
 REPO = os.environ.get("VERIF_REPO", "/repo")
 GUARD = "bytecodealliance_wit_bindgen_verif"
-EVIDENCE_DIR = os.path.join(VERIF, "evidence")
+EVIDENCE_DIR = os.environ.get("VERIF_EVIDENCE_DIR", os.path.join(VERIF, "evidence"))
 REPLAY_DIR = os.path.join(VERIF, "replays")
 WORK_DIR = os.path.join(VERIF, "work")
-TARGET_DIR = os.path.join(VERIF, "target")
+# builds against a scratch copy of the repository (mutation testing) never
+# share a target dir with builds against /repo
+TARGET_DIR = os.path.join(VERIF, "target") if REPO == "/repo" else os.path.join(WORK_DIR, "target_alt")
 KNOWN_FINDINGS = os.path.join(VERIF, "known_findings.json")
 
 
